@@ -89,8 +89,18 @@ def run_program(sc: Dict[str, Any], location: str, watchdog_s: float = 60.0) -> 
             if st.get("concurrent_kill") is not None:
                 # a second thread kills the engine WHILE restart() is executing (e.g. ComponentState.finish() because
                 # another component failed): delay in real milliseconds, the yield injection widens restart() itself
-                def _kill(delay=float(st["concurrent_kill"])):
-                    time.sleep(delay)
+                def _kill(delay=st["concurrent_kill"]):
+                    if isinstance(delay, str):
+                        # "alive[+ms]": wait until the engine looks alive again (restart() has reset its exit
+                        # reason), then kill - what a thread does that stops every running component
+                        t_end = time.time() + 2.0
+                        while not eng.isAlive() and time.time() < t_end:
+                            pass
+                        extra = float(delay.partition("+")[2] or 0.0) / 1000.0
+                        if extra:
+                            time.sleep(extra)
+                    else:
+                        time.sleep(float(delay))
                     harness.CTX.kill_tag.tag = "external"
                     try:
                         eng.kill()
